@@ -54,7 +54,7 @@ JudgeRoundTrip(e) ==
      ELSE IF [i \in 1..n |-> ElOf(K2, i)] # [i \in 1..n |-> ElOf(K, i)] THEN "reread-elements-and-order"
      ELSE IF [i \in 1..n |-> <<Mod80(K2.pos[i][1]), Mod80(K2.pos[i][2]), Mod80(K2.pos[i][3])>>] #
              [i \in 1..n |-> <<Mod80(K.pos[i][1]), Mod80(K.pos[i][2]), Mod80(K.pos[i][3])>>] THEN "reread-fractional-coordinates-modulo-1"
-     ELSE IF e.out = "fract" /\ \E i \in 1..n : \E d \in 1..3 : K2.pos[i][d] < 0 \/ K2.pos[i][d] > 80 THEN "reread-wrapped-into-cell"
+     ELSE IF e.out = "fract" /\ \E i \in 1..n : \E d \in 1..3 : K2.pos[i][d] < 0 \/ K2.pos[i][d] >= 80 THEN "reread-wrapped-into-cell"
      ELSE IF e.out = "cart" /\ K2.pos # K.pos THEN "reread-cartesian-coordinates"
      ELSE IF e.cellpar2 # e.cellpar THEN "reread-cell"
      ELSE IF K2.q # K.q THEN "reread-charges"
